@@ -535,7 +535,7 @@ func enumPathsOpts(fn *ssa.Function, limit, maxVisits int, opts InlineOpts) (pat
 					s.vals.set(x, describeShallow(x, s.term))
 				}
 			case *ssa.Alloc:
-				nm := "local:" + x.Comment
+				nm := "local:" + localName(x)
 				if x.Comment == "" || x.Heap && strings.HasPrefix(x.Comment, "new") || x.Comment == "complit" || x.Comment == "varargs" || x.Comment == "slicelit" {
 					nm = fmt.Sprintf("local:%s#%s", x.Comment, x.Name())
 				}
@@ -1110,6 +1110,17 @@ func evalInt(t string) (int64, bool) {
 		return a / b, true
 	}
 	return 0, false
+}
+
+// outcome reports how condition c (any spelling) was decided on this path, if it was tested.
+func (p *Path) outcome(c string) (val, known bool) {
+	if p.holds(c) {
+		return true, true
+	}
+	if p.holds("!" + c) {
+		return false, true
+	}
+	return false, false
 }
 
 // fact reports the outcome of the (normalised, ==-spelled) condition atom on this path, if it was tested.
